@@ -20,14 +20,18 @@
 EXTENDS TrackerCore, Json
 
 CONSTANTS Prog,          \* sequence of threads, each a sequence of call records
+          Post,          \* calls made sequentially after every thread has finished (state probe)
           TrackerMutex
 
 VARIABLES st, out, mu, wlock, pc, idx, loc
 
 cvars == <<st, out, mu, wlock, pc, idx, loc>>
 
-Threads == 1..Len(Prog)
-Call(t) == Prog[t][idx[t]]
+AllProg == Append(Prog, Post)      \* the probe runs as one more thread, after the others
+PostT == Len(Prog) + 1
+Threads == 1..Len(AllProg)
+Call(t) == AllProg[t][idx[t]]
+OthersDone == \A u \in Threads \ {PostT} : pc[u] = "idle" /\ idx[u] > Len(AllProg[u])
 Ev(c) == [tag |-> c.tag, typ |-> c.typ, res |-> c.res, args |-> c.args]
 
 CInit ==
@@ -41,7 +45,8 @@ Same(v) == UNCHANGED v
 
 \* entry of a public method: the tracker-level mutex (if the tree has one)
 Begin(t) ==
-    /\ pc[t] = "idle" /\ idx[t] <= Len(Prog[t])
+    /\ pc[t] = "idle" /\ idx[t] <= Len(AllProg[t])
+    /\ t = PostT => OthersDone
     /\ IF TrackerMutex THEN mu = 0 /\ mu' = t ELSE mu' = mu
     /\ Goto(t, CASE Call(t).k = "login"  -> "RL1"
                  [] Call(t).k = "audit"  -> "AE1"
@@ -162,7 +167,7 @@ CL(t) ==
     /\ Goto(t, "END")
     /\ UNCHANGED <<out, mu, wlock, idx, loc>>
 
-Quiescent == \A t \in Threads : pc[t] = "idle" /\ idx[t] > Len(Prog[t])
+Quiescent == \A t \in Threads : pc[t] = "idle" /\ idx[t] > Len(AllProg[t])
 
 Step(t) == \/ Begin(t) \/ End(t) \/ RL1(t) \/ RL2(t) \/ RL3(t) \/ AE1(t) \/ AE2(t) \/ AE3(t)
            \/ AE4(t) \/ AE4w(t) \/ AE5(t) \/ CS(t) \/ CL(t)
@@ -174,7 +179,7 @@ CSpec == CInit /\ [][CNext]_cvars /\ \A t \in Threads : WF_cvars(Step(t))
 (***************************************************************************)
 (* Linearizability at quiescence.                                          *)
 (***************************************************************************)
-SeqObs == SeqObsOf(Prog)
+SeqObs == SeqObsOf(Prog, Post)
 
 Linearizable == Quiescent => Obs(st, out) \in SeqObs
 NoLostWakeup == Quiescent => ~MutualWait(st)
